@@ -21,7 +21,7 @@ import (
 // ---- core set ----
 
 type coreOp struct {
-	K   string `json:"k"` // rtp | adv | rep
+	K   string `json:"k"` // rtp | adv | advreal | rep
 	Now int64  `json:"now,omitempty"`
 	Seq uint16 `json:"seq,omitempty"`
 	TS  uint32 `json:"ts,omitempty"`
@@ -51,6 +51,15 @@ func runCore(c *coreCase) {
 			s.ProcessRTP(time.Unix(0, op.Now), &rtp.Header{SequenceNumber: op.Seq, Timestamp: op.TS}, payloadBuf[:op.Len])
 		case "adv":
 			s.AdvancePacketCount(op.N)
+		case "advreal":
+			// N REAL sends of the reference packet (sequence number and timestamp of the
+			// newest packet sent, empty payload): what the hook AdvancePacketCount(N)
+			// abbreviates (theorem C07_advance_is_repeated_send). No hook involved.
+			h := &rtp.Header{SequenceNumber: op.Seq, Timestamp: op.TS}
+			t := time.Unix(0, op.Now)
+			for k := uint64(0); k < uint64(op.N); k++ {
+				s.ProcessRTP(t, h, nil)
+			}
 		case "rep":
 			sr := s.GenerateReport(time.Unix(0, op.Now))
 			op.NTP, op.RTP, op.PC, op.OC = sr.NTPTime, sr.RTPTime, sr.PacketCount, sr.OctetCount
@@ -66,7 +75,7 @@ func (c *coreCase) toCase(buckets ...string) cq.Case {
 		case "rtp":
 			ops[i] = cq.C("CRtp", cq.Z(op.Now), cq.ZU(uint64(op.Seq)), cq.ZU(uint64(op.TS)), cq.Z(int64(op.Len)))
 			seenPkt = true
-		case "adv":
+		case "adv", "advreal":
 			ops[i] = cq.C("CAdv", cq.ZU(uint64(op.N)))
 		default:
 			ops[i] = cq.C("CRep", cq.Z(op.Now), cq.ZU(op.NTP), cq.ZU(uint64(op.RTP)), cq.ZU(uint64(op.PC)), cq.ZU(uint64(op.OC)))
@@ -265,6 +274,117 @@ func genCountWrap(r *rand.Rand) (*coreCase, []string) {
 	c.Ops = append(c.Ops, coreOp{K: "rep", Now: now + 500*ms})
 
 	return c, []string{"count-wrap"}
+}
+
+// genBackClock: non-monotone clocks. Reports taken BEFORE the reference instant
+// (negative elapsed time: 1 ns .. days), sends whose clock steps back (the
+// reference instant itself moves back), and reports far enough before the
+// reference that the negative product wraps 2^32 several times.
+func genBackClock(r *rand.Rand) (*coreCase, []string) {
+	c := &coreCase{Rate: pickRate(r), UL: r.Intn(3) == 0}
+	b := []string{"nonmonotone-clock"}
+	now := recent + r.Int63n(100000000)*ms
+	ts, _ := pickTS(r)
+	seq, _ := pickSeq(r)
+	step := uint32(c.Rate / 50)
+	k := 1 + r.Intn(6)
+	for i := 0; i < k; i++ {
+		c.Ops = append(c.Ops, coreOp{K: "rtp", Now: now, Seq: seq, TS: ts, Len: pickLen(r)})
+		seq++
+		if r.Intn(3) != 0 {
+			ts += step
+		}
+		switch r.Intn(4) {
+		case 0: // the clock steps back between two sends
+			now -= int64(r.Intn(3000)) * ms
+			b = append(b, "send-clock-back")
+		case 1:
+		default:
+			now += int64(r.Intn(40)) * ms
+		}
+		if r.Intn(3) == 0 {
+			c.Ops = append(c.Ops, coreOp{K: "rep", Now: now})
+		}
+	}
+	// the reference instant is one of the send instants; reports around and before all of them
+	m := 1 + r.Intn(5)
+	for i := 0; i < m; i++ {
+		var back int64
+		switch r.Intn(8) {
+		case 0:
+			back = 1 + int64(r.Intn(3))
+			b = append(b, "report-ns-before-reference")
+		case 1:
+			back = sec - int64(r.Intn(3))
+			b = append(b, "report-1s-before-reference")
+		case 2:
+			back = int64(r.Intn(100000)) * ms
+		case 3:
+			back = int64(1+r.Intn(96)) * 3600 * sec // hours .. 4 days: product wraps 2^32 for audio/video rates
+			b = append(b, "report-hours-before-reference")
+		case 4:
+			back = r.Int63n(now) // anywhere back to 1970
+			b = append(b, "report-years-before-reference")
+		case 5:
+			back = -int64(r.Intn(5000)) * ms // a normal (later) report in between
+		default:
+			back = r.Int63n(20 * sec)
+		}
+		c.Ops = append(c.Ops, coreOp{K: "rep", Now: now - back})
+		if r.Intn(3) == 0 { // a late (older) or a newer send between the reports, possibly at an earlier instant
+			d := uint16(r.Intn(4))
+			t2 := now - int64(r.Intn(2000))*ms
+			if r.Intn(2) == 0 {
+				c.Ops = append(c.Ops, coreOp{K: "rtp", Now: t2, Seq: seq - 1 - d, TS: ts - uint32(d+1)*step, Len: pickLen(r)})
+			} else {
+				ts += step
+				c.Ops = append(c.Ops, coreOp{K: "rtp", Now: t2, Seq: seq, TS: ts, Len: pickLen(r)})
+				seq++
+			}
+		}
+	}
+	c.Ops = append(c.Ops, coreOp{K: "rep", Now: now - int64(r.Intn(10000))*ms})
+	if c.UL {
+		b = append(b, "use-latest")
+	}
+
+	return c, dedup(b)
+}
+
+// genCountWrapReal (thorough tier only): the 2^32 packet-counter wrap reached by
+// REAL sends, no hook: a few in-order packets, then 2^32 - k - {0,1,2} real sends
+// of the reference packet with an empty payload (op "advreal", about 1-2 minutes
+// of processRTP calls), then older / newer packets and reports, as genCountWrap.
+func genCountWrapReal(r *rand.Rand) (*coreCase, []string) {
+	c := &coreCase{Rate: rates[r.Intn(3)], UL: r.Intn(4) == 0}
+	now := recent + r.Int63n(1000000)*ms
+	seq, _ := pickSeq(r)
+	ts := r.Uint32()
+	k := 1 + r.Intn(4)
+	for i := 0; i < k; i++ {
+		c.Ops = append(c.Ops, coreOp{K: "rtp", Now: now, Seq: seq, TS: ts, Len: pickLen(r)})
+		now += 20 * ms
+		seq++
+		ts += 3000
+	}
+	seq--
+	ts -= 3000
+	c.Ops = append(c.Ops, coreOp{K: "rep", Now: now})
+	c.Ops = append(c.Ops, coreOp{K: "advreal", Now: now, Seq: seq, TS: ts,
+		N: uint32(uint64(1<<32) - uint64(k) - uint64(r.Intn(3)))})
+	c.Ops = append(c.Ops, coreOp{K: "rep", Now: now})
+	for i := 0; i < 4; i++ {
+		d := uint16(1 + r.Intn(20))
+		s2, t2 := seq-d, ts-uint32(d)*3000
+		if i%2 == 1 {
+			s2, t2 = seq+d, ts+uint32(d)*3000
+		}
+		c.Ops = append(c.Ops, coreOp{K: "rtp", Now: now, Seq: s2, TS: t2, Len: pickLen(r)})
+		now += 20 * ms
+		c.Ops = append(c.Ops, coreOp{K: "rep", Now: now})
+	}
+
+	return c, []string{"count-wrap", "count-wrap-real-sends"}
 }
 
 func dedup(b []string) []string {
@@ -554,9 +674,17 @@ func main() {
 		var b []string
 		if i%25 == 24 {
 			c, b = genCountWrap(r)
+		} else if i%8 == 5 {
+			c, b = genBackClock(r)
 		} else {
 			c, b = genCore(r)
 		}
+		runCore(c)
+		core.Cases = append(core.Cases, c.toCase(b...))
+	}
+	if o.Tier == "thorough" {
+		// one real run across the 2^32 packet-counter wrap (no hook)
+		c, b := genCountWrapReal(r)
 		runCore(c)
 		core.Cases = append(core.Cases, c.toCase(b...))
 	}
